@@ -83,6 +83,11 @@ func VerifC08VisitorConn() {
 	enc, comp := zzverif.Bool("enc"), zzverif.Bool("comp")
 	c08EncFails = zzverif.Bool("encFails")
 	conn := &c08Conn{}
+	// the proxy may be on its way out: its listener already closed, its name not yet withdrawn
+	ownerClosing := zzverif.Bool("proxyIsClosing")
+	if ownerClosing {
+		_ = l1.Close()
+	}
 	before1 := l1.ZZPending()
 
 	err = vm.NewConn(name, conn, ts, sign, enc, comp, user)
@@ -96,6 +101,7 @@ func VerifC08VisitorConn() {
 		}
 		valid := zzverif.StrEq(sign, c08StubAuthKey(sk1, ts))
 		if err == nil {
+			zzverif.Assert(!ownerClosing, "C11.conn.a-stream-nobody-will-accept-is-not-reported-as-admitted")
 			zzverif.Assert(valid, "C08.conn.admitted-only-with-valid-signature")
 			zzverif.Assert(allowed, "C08.conn.admitted-only-allowed-user")
 			zzverif.Assert(l1.ZZPending() == before1+1, "C08.conn.queued-once")
@@ -119,7 +125,10 @@ func VerifC08VisitorConn() {
 		} else {
 			zzverif.Assert(l1.ZZPending() == before1, "C08.conn.refused-not-queued")
 			if valid && allowed {
-				zzverif.Assert(enc && c08EncFails, "C08.conn.valid-request-refused-only-on-layer-failure")
+				zzverif.Assert((enc && c08EncFails) || ownerClosing, "C08.conn.valid-request-refused-only-on-layer-failure")
+				if ownerClosing {
+					zzverif.Reach("C11.conn.stream-nobody-will-accept-is-refused")
+				}
 			}
 			zzverif.Reach("C08.conn.refused")
 		}
